@@ -73,6 +73,10 @@ Definition Dzw (z w : RC) : R :=
   (2*(re w*re z + im w*im z)+1)*(2*(re w*re z + im w*im z)+1)
   - (4*(re z*re z+im z*im z))*(re w*re w+im w*im w).
 
+(* the discriminant as the code evaluates it (1 + 4c - 4t^2, t = Im(w conj z)) is the documented one *)
+Lemma m_D_is_Dzw (z w : RC) : m_D OpsR (site_mid_of OpsR z w) = Dzw z w.
+Proof. unfold site_mid_of, Dzw. cbn. ring. Qed.
+
 Lemma finish_cases (z w : RC) :
   (Dzw z w < 0 /\ site_finish OpsR z w = None) \/
   (0 <= Dzw z w /\ site_finish OpsR z w =
@@ -80,7 +84,7 @@ Lemma finish_cases (z w : RC) :
             csub OpsR w (cscale OpsR ((2 * cx_abs2 w) / ((2*(re w*re z + im w*im z)+1) + sqrt (Dzw z w))) z))).
 Proof.
   unfold site_finish. cbn [negb mid_finite o_isfin OpsR andb].
-  change (m_D OpsR (site_mid_of OpsR z w)) with (Dzw z w).
+  rewrite m_D_is_Dzw.
   destruct (o_ltb OpsR (Dzw z w) (o_of_Z OpsR 0)) eqn:E; cbn in E.
   - apply Rltb_true in E. left; split; [exact E|reflexivity].
   - apply Rltb_false in E. right; split; [exact E|reflexivity].
